@@ -137,7 +137,8 @@ mutual
         name
         if (← peek) == some .colon then
           bump "COLON"
-          withRec limitErr (value n isConst true))
+          withRec limitErr (value n isConst true)
+        else err)
 end
 
 def defaultValue (n : Nat) : PI Unit := withNode "DEFAULT_VALUE" (do bump "EQ"; value n true false)
@@ -149,7 +150,8 @@ def argument (n : Nat) (isConst : Bool) : PI Unit :=
     name
     if (← peek) == some .colon then
       bump "COLON"
-      value n isConst false)
+      value n isConst false
+    else err)
 
 def arguments (n : Nat) (isConst : Bool) : PI Unit :=
   withNode "ARGUMENTS" (do
@@ -403,7 +405,8 @@ def schemaDefinition (n : Nat) : PI Unit :=
       let len ← srcLen
       let has ← peekWhileKindFlagLoop .name rootOperationTypeDefinition (len + 3) false
       if !has then err
-      expect .rCurly "R_CURLY")
+      expect .rCurly "R_CURLY"
+    else err)
 
 def schemaExtension (n : Nat) : PI Unit :=
   withNode "SCHEMA_EXTENSION" (do
